@@ -147,6 +147,12 @@ func TestRaceC16(t *testing.T) {
 				t.FailNow()
 			}
 		}
+		if fixed == nil && i%5 == 0 {
+			if msg := chanChurn(int(i)); msg != "" {
+				fmt.Printf("REAL-LEG VIOLATION class=lost-item gomaxprocs=%d\n%s\n", procs[int(i)%len(procs)], msg)
+				t.FailNow()
+			}
+		}
 		n++
 	}
 	report(map[string]any{"workloads": n, "repeats_each": 3, "seconds": d.Seconds(), "gomaxprocs_cycle": procs})
@@ -157,6 +163,80 @@ func TestRaceC16(t *testing.T) {
 // inside). Every call is cancelled and must return; the bound is wall-clock and deliberately huge
 // (30 s for scripts that poll on every statement), and it is the property's own observable
 // ("wall-clock time between cancel() and return").
+// chanChurn: a run that makes, uses, closes and drops a channel per item (reply channels), tens of thousands of
+// them, while the garbage collector runs: every one behaves like a fresh channel, whatever address it got.
+func chanChurn(round int) string {
+	n := int64(12000 + 1000*(round%6))
+	var sum int64
+	e := env.NewEnv()
+	e.Define("n", n)
+	e.Define("acc", func(v int64) { sum += v })
+	stop := make(chan struct{})
+	go func() {
+		for {
+			select {
+			case <-stop:
+				return
+			default:
+				runtime.GC()
+			}
+		}
+	}()
+	defer close(stop)
+	src := "for i = 0; i < n; i++ {\nr = make(chan int64, 1)\nr <- i\nacc(<-r)\nclose(r)\n}\ndone = make(chan int64)\ngo func() {\nfor j = 0; j < 50; j++ {\nq = make(chan int64, 1)\nq <- j\nacc(<-q)\nclose(q)\n}\ndone <- 1\n}()\n<-done"
+	ctx, cancel := context.WithTimeout(context.Background(), 120*time.Second)
+	defer cancel()
+	_, err := vm.ExecuteContext(ctx, e, &vm.Options{Debug: false}, src)
+	want := n*(n-1)/2 + 50*49/2
+	if err != nil || sum != want {
+		return fmt.Sprintf("a run that makes, uses, closes and drops one channel per item (%d of them, garbage collector running) ended with error %v after delivering a sum of %d (every item once: %d)\n%s", n, err, sum, want, src)
+	}
+	return ""
+}
+
+// twinRuns: two calls on ONE environment run the same program under different contexts; only the second is
+// cancelled. It must return, whatever the first - still running - is holding.
+func twinRuns(t *testing.T, k int) bool {
+	progs := []string{
+		"module svc {\nfor { }\n}",
+		"module svc {\nfunc g() { for { x = 1 } }\ntry { g() } catch { }\n}",
+		"func spin() { for { } }\nspin()",
+		"for { x = 1 }", // (a shared VARIABLE is fine; a shared container written by both runs would be the script's own race)
+		"module a {\nmodule b {\nfor true { }\n}\n}",
+		"c = make(chan int64)\n<-c",
+	}
+	src := progs[k%len(progs)]
+	e := env.NewEnv()
+	ctxA, cancelA := context.WithCancel(context.Background())
+	ctxB, cancelB := context.WithCancel(context.Background())
+	defer cancelA()
+	defer cancelB()
+	doneA, doneB := make(chan error, 1), make(chan error, 1)
+	go func() { _, err := vm.ExecuteContext(ctxA, e, nil, src); doneA <- err }()
+	time.Sleep(2 * time.Millisecond)
+	go func() { _, err := vm.ExecuteContext(ctxB, e, nil, src); doneB <- err }()
+	time.Sleep(2 * time.Millisecond)
+	cancelB()
+	select {
+	case err := <-doneB:
+		if err == nil || err.Error() != "execution interrupted" {
+			fmt.Printf("REAL-LEG VIOLATION class=interrupt-swallowed\nthe second of two calls on one environment was cancelled and returned error %v\n%s\n", err, src)
+			t.FailNow()
+		}
+	case <-time.After(30 * time.Second):
+		fmt.Printf("REAL-LEG VIOLATION class=cancel-ignored\nthe second of two calls on one environment (same program, own context) had not returned 30 s after its context was cancelled; the first call is still running\n%s\n", src)
+		t.FailNow()
+	}
+	cancelA()
+	select {
+	case <-doneA:
+	case <-time.After(30 * time.Second):
+		fmt.Printf("REAL-LEG VIOLATION class=cancel-ignored\nthe first of two calls on one environment had not returned 30 s after its context was cancelled\n%s\n", src)
+		t.FailNow()
+	}
+	return true
+}
+
 func TestRaceC02(t *testing.T) {
 	seed, d := budget()
 	end := time.Now().Add(d)
@@ -173,6 +253,9 @@ func TestRaceC02(t *testing.T) {
 			return
 		}
 		unwinds++
+	}
+	for k := 0; k < 6; k++ {
+		twinRuns(t, k+next(6))
 	}
 	fmt.Printf("deep unwinds took %v\n", time.Since(t0))
 	end = time.Now().Add(d) // the racing rounds keep their full budget
@@ -300,6 +383,7 @@ func TestRaceC01(t *testing.T) {
 	r := uint64(seed)*2654435761 + 99991
 	next := func(n int) int { r = r*6364136223846793005 + 1442695040888963407; return int((r >> 33) % uint64(n)) }
 	rounds, timeouts, scriptErrs := 0, 0, 0
+	sharedOpts := &vm.Options{Debug: false} // hosts commonly keep one Options value for all their runs
 	// first-use storms: a process-wide table keyed by a small space of shapes (number of parameters, ...)
 	// is only ever filled once per process, so each storm runs in a fresh child process of this binary
 	storms := 4 + int(d/time.Second)
@@ -338,6 +422,14 @@ func TestRaceC01(t *testing.T) {
 			}
 			b.WriteString("}()\n")
 		}
+		if round%16 == 3 {
+			// a VARIABLE (not a container) of the enclosing scope, assigned values of changing kinds by one goroutine
+			// and read - and used - by another and by the main script: scopes are safe to share between goroutines
+			b.WriteString("shared = 0\nstopw = false\nwdone = make(chan int64, 2)\ngo func() {\nfor !stopw {\nshared = [1, 2, 3, 4, 5, 6, 7, 8]\nshared = 123456789\nshared = \"a string that is long enough to matter\"\nshared = {\"k\": \"v\"}\nshared = 1.5\n}\nwdone <- 1\n}()\n")
+			use := "sv = shared\nif kindOf(sv) == \"slice\" { for se in sv { sn += se } } else { ss = \"\" + sv; sn += len(ss) }\n"
+			b.WriteString("go func() {\nsn = 0\nfor w = 0; w < 10000; w++ {\ntry {\n" + use + "} catch e { }\n}\nwdone <- 1\n}()\n")
+			b.WriteString("sn = 0\nfor w = 0; w < 10000; w++ {\ntry {\n" + use + "} catch e { }\n}\nstopw = true\n<-wdone\n<-wdone\n")
+		}
 		fmt.Fprintf(&b, "for i = 0; i < %d; i++ { <-done }\nlen(nerr)\n", k)
 		src := b.String()
 		e := env.NewEnv()
@@ -352,7 +444,11 @@ func TestRaceC01(t *testing.T) {
 					t.FailNow()
 				}
 			}()
-			val, err = vm.ExecuteContext(ctx, e, &vm.Options{Debug: false}, src)
+			opts := sharedOpts
+			if round%3 == 0 {
+				opts = &vm.Options{Debug: false}
+			}
+			val, err = vm.ExecuteContext(ctx, e, opts, src)
 		}()
 		if ctx.Err() != nil {
 			timeouts++ // termination is not what C01 states
